@@ -12,4 +12,10 @@ def Int128_Div (i n : I128) : I128 :=
   | .ok q => q
   | .panic => ⟨0#64, 0#64⟩
 
+/-- `Int128.Mod`: the model's `I128.mod`, total form (0 for a zero divisor, where Go panics) -/
+def Int128_Mod (i n : I128) : I128 :=
+  match I128.mod i n with
+  | .ok r => r
+  | .panic => ⟨0#64, 0#64⟩
+
 end GenNum
